@@ -20,7 +20,9 @@ def stage_judge_fold(run, resfile, name="judge_fold"):
     j, vfiles, d = run.judge(name, "JudgeFold", "C15", resfile, unit=1500)
     run.traces += j["judged"]
     run.distinct += j["judged"]
-    run.stage(name, renders_judged=j["judged"], failures=j["failures"], known=j["known"], secs=j["secs"], jvms=j["jvms"])
+    run.stage(name, renders_judged=j["judged"], failures=j["failures"], known=j["known"], secs=j["secs"], jvms=j["jvms"], fold_model_drift=j.get("drift", 0))
+    if j.get("drift", 0):
+        run.drift.append({"stage": name, "what": "%d renders differ from the exact parenthesisation of Fold.tla (allowed by the property)" % j["drift"]})
     docs = "docs" in name
     for vf in vfiles:
         run.add_verdicts(vf, lambda v: {"pipeline": "foldtext", "q": v.get("q"), "doc": docs})
